@@ -53,7 +53,7 @@ Space == CASE Shape = "two" -> {[tns |-> t, decl |-> d, nested |-> n, rev |-> FA
 (* the reader's traversal over the registry operators (functional form of reader.rs) *)
 RECURSIVE AddRefs(_, _)
 AddRefs(d, decls) == IF decls = <<>> THEN d
-                     ELSE AddRefs(AddRef(d, decls[1][1], decls[1][2], BaseOf(decls[1][2]), FALSE), Tail(decls))
+                     ELSE AddRefs(AddRefD(d, decls[1][1], decls[1][2], BaseOf(decls[1][2]), FALSE, Dev), Tail(decls))
 
 RECURSIVE ReadFile(_, _, _, _)
 RECURSIVE ReadImports(_, _, _, _, _)
